@@ -244,8 +244,26 @@ def r20_3(F, R):
                 R.ok("R20.3", "sig:" + nm, ret.strip() or "()", "%s:%d" % (fn.file, fn.line), how="signature")
 
 
+def r20_4(F, R):
+    R.rule("R20.4", "scoped map, structural necessary condition of the stack-of-snapshots model: a global insert visits every open group's log "
+                    "(loop over the whole group stack, loop-variant element, no early exit, no bypass) — shared with C01 R1.2")
+    fn = c01.method(F, c01.GC, "insert")
+    sw = c01.scope_switch(fn)
+    if not sw:
+        raise AnchorError("R20.4: no `match scope` in GroupingContainer::insert")
+    for bi, loc_t, glob_t in sw:
+        ok, msg, loc = c01.purge_loop_check(F, fn,  glob_t,
+                                            lambda ty: ty.startswith("&mut std::collections::HashMap<") or ty.startswith("&mut std::collections::hash::map::HashMap<"),
+                                            lambda o: ("field", "groups") in o)
+        if ok:
+            R.ok("R20.4", "GroupingContainer::insert", msg, loc, how="loop-variance")
+        else:
+            R.violation("R20.4", "GroupingContainer::insert", "%s: %s" % (fn.name, msg), loc)
+
+
 def run(F, R, tier):
     r20_1(F, R)
+    r20_4(F, R)
     r20_2(F, R)
     r20_3(F, R)
     if tier == "thorough":
